@@ -96,6 +96,50 @@ def gdb_handover(args):
     return call, fake_sys.argv
 
 
+def real_run_handover(ctx, rep):
+    """main.py <our words> -r <program> <words>: the program is really started; what it receives as argv is printed by the
+    program itself.  Includes the program given as one word only, with a space in its path."""
+    import subprocess, tempfile, shutil, stat
+    r = ctx.rnd
+    tmp = tempfile.mkdtemp(prefix='c19run-', dir=os.path.join(tlc.OUT, 'tmp'))
+    try:
+        progs = []
+        for d, nm in (('plain', 'dump'), ('my programs', 'dump argv'), ("it's here", 'a"b')):
+            os.makedirs(os.path.join(tmp, d), exist_ok=True)
+            path = os.path.join(tmp, d, nm)
+            with open(path, 'w') as f:
+                f.write('#!/bin/sh\nprintf "RUN-ARGV"; for a in "$0" "$@"; do printf "|%s" "$a"; done; printf "\\n"\nexit 7\n')
+            os.chmod(path, os.stat(path).st_mode | stat.S_IXUSR)
+            progs.append(path)
+        WORDS = [[], [], ['a b'], ['-r', '--gdb', '-f', 'x'], ['x"y', 'c\\d', ''], ['-Cr'], ['one two three']]
+        OURS = [[], ['-C'], ['--supress'], ['-f', 'wl_surface'], ['-b', '!']]
+        for k in range(ctx.pick(10, 60)):
+            prog, words, ours = progs[k % len(progs)], WORDS[k % len(WORDS)] if k >= len(progs) else [], r.choice(OURS)
+            argv = ours + [r.choice(['-r', '--run'])] + [prog] + words
+            rep.case('real-run:' + json.dumps(argv))
+            rp = {'kind': 'realrun', 'argv': argv}
+            try:
+                p = subprocess.run([PY_BIN, os.path.join(e1.REPO, 'main.py')] + argv, cwd=e1.REPO, env=dict(os.environ, LANG='C.UTF-8', LC_ALL='C.UTF-8'),
+                                   input=b'quit\n', stdout=subprocess.PIPE, stderr=subprocess.PIPE, timeout=45)
+            except subprocess.TimeoutExpired as e:
+                # (a program that cannot be started leaves the tool waiting for its output for ever)
+                rep.violation('realrun:not-started', 'wayland-debug does not come back within 45 s for %r (a trivial program that exits at once): %s'
+                              % (argv, ((e.stdout or b'') + (e.stderr or b'')).decode('utf-8', 'replace')[-300:]), rp)
+                continue
+            out = p.stdout.decode('utf-8', 'replace')
+            got = [ln for ln in out.split('\n') if ln.startswith('RUN-ARGV')]
+            want = 'RUN-ARGV|' + '|'.join([prog] + words)
+            if not got:
+                rep.violation('realrun:not-started', 'the program was not started for %r: %s' % (argv, (out + p.stderr.decode('utf-8', 'replace'))[-300:]), rp)
+            elif got[0] != want:
+                rep.violation('realrun:argv', 'the program received %r, the forwarded words are %r' % (got[0], want), rp)
+            elif p.returncode != 7:
+                rep.violation('realrun:status', 'wayland-debug exits with %s, the program exited with 7' % p.returncode, rp)
+        rep.extra['real_run_handovers'] = ctx.pick(10, 60)
+    finally:
+        shutil.rmtree(tmp, ignore_errors=True)
+
+
 def real_gdb_handover(ctx, rep):
     """main.py <our words> -g <words for gdb>: the real gdb starts the real inner instance; what it sees as sys.argv and what
     gdb itself received are printed from inside gdb and compared"""
@@ -239,6 +283,7 @@ def run(ctx):
         if len(rep.samples) < 4 and want['o'] == 'ok' and len(argv) >= 3:
             rep.sample({'classes': argv, 'words': words, 'outcome': want})
     real_gdb_handover(ctx, rep)
+    real_run_handover(ctx, rep)
     rep.traces = rep.evaluations
     rep.extra['gdb_handovers_checked'] = nh
     rep.rule = ('P1: TLC checks ForwardedVerbatim / FirstWins / ExactlyOneMode on CmdLine!Outcome for every argv of <= 4/5 tokens over 14 token '
